@@ -14,11 +14,12 @@ LEVEL = "exploration"
 WORKERS = {"quick": 8, "thorough": 16}
 BUDGET = {"quick": 60, "thorough": 400}
 MIN_NONTRIVIAL = {"quick": 4000, "thorough": 100000}
-REQUIRED_HOOKS = ["compound", "IntType.__add__", "IntType.__truediv__", "IntType.__mod__", "IntType.__neg__", "UintType.__sub__", "UintType.__neg__", "DoubleType.__truediv__", "evaluate:I", "evaluate:C", "direct"]
+REQUIRED_HOOKS = ["compound", "shared-environment", "IntType.__add__", "IntType.__truediv__", "IntType.__mod__", "IntType.__neg__", "UintType.__sub__", "UintType.__neg__", "DoubleType.__truediv__", "evaluate:I", "evaluate:C", "direct"]
 RULE = (
     "Operand pairs from a boundary x boundary grid (MIN, MAX, 0, +-1, 2^k, 2^k+-1 ...; doubles +-0, subnormal, 2^53, +-max, +-inf) plus seeded random pairs, "
     "for + - * / % and unary minus, through (i) direct calls of the celtypes operators, (ii) reflected calls with a plain int/float left operand, "
-    "(iii) parsed expressions with literal operands and (iv) with bound variables, under both runners, while recording wrappers on the "
+    "(iii) parsed expressions with literal operands and (iv) with bound variables, under both runners (half of them compiled in one long-lived Environment per runner and worker, "
+    "the others in a fresh Environment each), while recording wrappers on the "
     "IntType/UintType/DoubleType dunder methods check every operator call the engines make. Oracle: exact integer arithmetic with range check; "
     "doubles via exact rational arithmetic rounded to binary64 plus an IEEE special-case table. (v) compound expressions: random trees (depth <= 3, thorough 4) of "
     "+ - * / % and unary minus in its three spellings (-(e), - e, -e; nested negations included) over three bound variables and literals of one numeric type, "
@@ -353,6 +354,29 @@ def reflected(acc, t, op, a, b):
     judge(acc, t, op, a, b, "reflected", out)
 
 
+_SHARED_ENV = {}
+
+
+def eval_in_shared_env(runner, src, bind):
+    """Like core.api_eval(raw=True), but every program of this worker is compiled in ONE long-lived Environment per
+    runner class (an application compiles many expressions in one environment): int, uint and double literals with
+    the same digits, and the same operator on other operand types, meet in that environment's state."""
+    c = core.celpy()
+    env = _SHARED_ENV.get(runner)
+    if env is None:
+        env = _SHARED_ENV[runner] = c.Environment(runner_class=core.runner_class(runner))
+    try:
+        prog = env.program(env.compile(src))
+        v = prog.evaluate(bind)
+    except c.CELParseError as ex:
+        return ["P", ex.line, ex.column, ex]
+    except c.CELEvalError as ex:
+        return ["E", ex]
+    except Exception as ex:
+        return ["X", "shared-env", type(ex).__name__, core._left_from(ex), core._msg(ex), ex]
+    return ["V", core.canon(v), v]
+
+
 def via_expr(acc, mon, t, op, a, b, runner, literal, rnd):
     if literal:
         try:
@@ -373,7 +397,11 @@ def via_expr(acc, mon, t, op, a, b, runner, literal, rnd):
             bind["y"] = mk(t, b)
         path = "bound:" + runner
     mon.path = path
-    o = core.api_eval(runner, src, bind, raw=True)
+    if rnd.random() < 0.5:
+        o = eval_in_shared_env(runner, src, bind)
+        acc.hook("shared-environment")
+    else:
+        o = core.api_eval(runner, src, bind, raw=True)
     mon.path = "?"
     acc.hook("evaluate:" + runner)
     if o[0] == "V":
